@@ -76,6 +76,14 @@ def check_stateless(ctx, roots, rule="STATELESS", mutation_only=False):
             n_fn += 1
             local = {x.id for x in ast.walk(fi.node) if isinstance(x, ast.Name) and isinstance(x.ctx, ast.Store)} | set(fi.all_params)
             bad = None
+            # a memoised helper hands out the same (mutable) object on every hit and ignores whatever its key does not contain
+            memo = [d for d in fi.decorators if d.split(".")[-1] in ("lru_cache", "cache")]
+            if memo:
+                rets_ = [r.value for r in ast.walk(fi.node) if isinstance(r, ast.Return) and r.value is not None]
+                if not (rets_ and all(isinstance(v, ast.Constant) or (isinstance(v, ast.Call) and (dotted(v.func) or "") in ("float", "int", "bool", "str", "tuple", "frozenset", "len")) for v in rets_)):
+                    ctx.violate(rule, fi.qualname + ":memoised", fi, f"{fi.name} is memoised ({memo[0]}) and returns an object its callers can modify: every later call with the same key receives "
+                                "the modified object, so the result of an analysis depends on what was done with earlier results in the same process")
+                    continue
             for n in ast.walk(fi.node):
                 if isinstance(n, ast.Name) and n.id not in local:
                     key = (fi.module.name, n.id)
